@@ -17,12 +17,17 @@ Stage 2 (direct search): histories are driven through the real library on the S3
   still there, and the retried commit succeeds and yields the same bucket as the fault-free commit.
   Order oracle on the fault-free log: root inventory.json after every key below vN/, before its sidecar.
 Stage 3 (correspondence): the Gallina request programs (Model/S3.v) are run with the same fault
-  position on the same bucket and compared with the request log (exact: the mutating requests and the GETs the
-  commit sends after its first mutating request, i.e. the reads of what it is about to replace), the result
+  position on the same bucket and compared with the request log (exact: the GETs a version commit sends after
+  the emptiness listing of the version prefix, i.e. the reads of what it is about to replace, and the mutating
+  requests), the result
   class and the final bucket.  The directory walk handed to the model is the observed upload order of the
   ordinary files with the directory's own inventory.json and inventory.json.* moved to the FRONT: the model's
   stable sort (S3.upload_order) has to move them to the end to agree with the log, so the correspondence does not
   depend on re-enacting the readdir order and still breaks if the code stops sorting.
+Since /repo commit 862b96a the reads of a version commit (GET of the root inventory, of the root sidecar, the
+declaration listing and the GET of the old declaration of an upgrade) precede its first write; each of them is
+failed once per mode as well (MUST-PASS: error, no mutating request, bucket untouched, staged version kept, retry
+succeeds; between 9053efb and 862b96a a failing GET left the uploaded keys of vN behind).
 A failure of a request that puts something back during the rollback (a second fault in one commit) is outside the
 single-failure quantifier of the property and is not generated.
 """
@@ -55,17 +60,45 @@ def mut_log(entries):
     return [e for e in entries if e["method"] in ("PUT", "POST", "DELETE")]
 
 
-def corr_log(entries):
-    """what the model logs: the mutating requests, and the GETs sent after the first mutating request of the
-    commit (write_new_version reads what it is about to replace, s3.rs:591-602; the GETs before the first
-    mutating request belong to get_inventory / the staging bookkeeping and are not part of the request program)"""
-    out, seen = [], False
-    for e in entries:
-        if e["method"] in ("PUT", "POST", "DELETE"):
-            seen = True
-            out.append(e)
-        elif seen and e["kind"] == "get":
-            out.append(e)
+def corr_log(entries, vpre=None):
+    """what the model logs of one commit: its mutating requests and the GETs of its request program.  For a
+    version commit these are the GETs after the emptiness listing of the version prefix [vpre] (write_new_version
+    reads what it is about to replace before it writes anything, s3.rs:589-599); the GETs before that listing
+    belong to get_inventory / the staging bookkeeping.  A new object has no GET in its program."""
+    first_mut = next((n for n, e in enumerate(entries) if e["method"] in ("PUT", "POST", "DELETE")), len(entries))
+    start = first_mut
+    if vpre is not None:
+        ls = [n for n, e in enumerate(entries) if e["kind"] == "list" and e["query"].get("prefix") == vpre and n < first_mut]
+        if ls:
+            start = ls[-1]
+    return [e for n, e in enumerate(entries)
+            if e["method"] in ("PUT", "POST", "DELETE") or (n > start and e["kind"] == "get")]
+
+
+def program_reads(entries, vpre, root_full):
+    """the reads of the request program of a version commit in the full log of its fault-free run:
+    [(index in the log, read position of the model, what)] - GET root inventory = 0, GET root sidecar = 1,
+    every page of the find_files listing of an upgrade = 2, GET of the n-th old declaration = 3 + n"""
+    first_mut = next((n for n, e in enumerate(entries) if e["method"] in ("PUT", "POST", "DELETE")), len(entries))
+    ls = [n for n, e in enumerate(entries) if e["kind"] == "list" and e["query"].get("prefix") == vpre and n < first_mut]
+    if not ls:
+        return []
+    out, gets = [], 0
+    # (wherever they are sent: were they sent after the upload, as between 9053efb and 862b96a, failing one
+    # of them must show what is left behind)
+    for n in range(ls[-1] + 1, len(entries)):
+        e = entries[n]
+        if e["kind"] == "get":
+            name = e["key"][len(root_full) + 1:]
+            if gets == 0:
+                out.append((n, 0, "get-root-inventory"))
+            elif gets == 1:
+                out.append((n, 1, "get-root-sidecar"))
+            else:
+                out.append((n, 3 + gets - 2, "get-declaration"))
+            gets += 1
+        elif e["kind"] == "list":
+            out.append((n, 2, "list-declarations"))
     return out
 
 
@@ -173,7 +206,7 @@ class Sweep:
         sidecar_key = next((k for k in new_keys if k.startswith(root_full + "/inventory.json.")), None)
         rec = {"label": label, "oid": oid, "op": op["op"], "is_new": is_new, "prefix": self.prefix, "root": root_full[len(self.pl):],
                "vstr": vstr, "n_requests": len(ref_log), "kinds": sorted({e["kind"] for e in ref_log}),
-               "order_msg": None, "faults": [], "ref_log": ref_log, "ref_corr_log": corr_log(ref_full),
+               "order_msg": None, "faults": [], "ref_log": ref_log, "ref_corr_log": None,
                "base_bucket": base_bucket, "ref_final": ref_final,
                "sidecar_name": sidecar_key.rsplit("/", 1)[-1] if sidecar_key else None,
                "old_sidecar_name": next((x[len(root_full) + 1:] for x in sorted(base_bucket)
@@ -202,49 +235,71 @@ class Sweep:
             rec["order_msg"] = "root inventory.json stored (request %d) before a key below %s (request %d)" % (ri, vstr, last_v)
         elif pos[sidecar_key] < ri:
             rec["order_msg"] = "root sidecar stored before the root inventory.json"
+        rec["ref_corr_log"] = corr_log(ref_full, None if is_new else vpre)
+
+        def attempt(k, mode, scope):
+            """the commit with request k (counted over the mutating requests or over all requests) failed once"""
+            self.restore(base_bucket, stg_copy)
+            stub.clear_log()
+            stub.fail_at(k, mode=mode, scope=scope)
+            r = self.r.s.call(cmd)
+            full = stub.take_log()
+            log = corr_log(full, None if is_new else vpre)
+            fired = any(e.get("fault") for e in full)
+            stub.clear_faults()
+            after = stub.dump(bucket)
+            pending = len(stub.pending_uploads())
+            stub.uploads.clear()
+            f = {"k": k, "mode": mode, "class": hist.res_class(r), "log": log, "after": after, "msg": None,
+                 "pending_uploads": pending}
+            msgs = []
+            if not fired:
+                msgs.append("the request to fail was never sent (the request sequence of the commit is not repeatable)")
+            if "ok" in r:
+                msgs.append("commit reported success although request %d failed" % k)
+            elif "panic" in r:
+                msgs.append("commit panicked")
+            changed = sorted(x for x in base_bucket if after.get(x) != base_bucket[x])
+            if changed:
+                msgs.append("keys that existed before the commit are missing/changed: %r" % changed[:4])
+            left = sorted(x for x in after if x not in base_bucket)
+            if left:
+                msgs.append("keys of the failed version left behind: %r" % left[:4])
+            self.fresh()
+            if self.reads(oid) != base_reads:
+                msgs.append("earlier versions of the object do not read back as before the failed commit")
+            st = self.staged(oid)
+            if st != base_staged and (isinstance(base_staged, dict) or not isinstance(st, dict)):
+                msgs.append("the staged version is not kept")      # (an upgrade without staged changes stages its own version)
+            stub.clear_log()
+            # the retry: the same commit; after a failed upgrade the staged version already carries the new
+            # type declaration (a second `upgrade` is refused as IllegalOperation), it is finished by a plain commit
+            r2 = self.r.s.call(retry_cmd(cmd))
+            if "ok" not in r2:
+                msgs.append("the retried commit fails: %s" % hist.res_class(r2))
+            else:
+                fin = stub.dump(bucket)
+                if set(fin) != set(ref_final) or any(ctok(x, fin[x]) != ctok(x, ref_final[x]) for x in fin):
+                    msgs.append("the retried commit does not yield the object of a fault-free commit")
+            f["msg"] = "; ".join(msgs) if msgs else None
+            return f
         # ---- every mutating request failed once per mode
         for mode in modes:
             for k in range(len(ref_log)):
-                self.restore(base_bucket, stg_copy)
-                stub.clear_log()
-                stub.fail_at(k, mode=mode, scope="mut")
-                r = self.r.s.call(cmd)
-                log = corr_log(stub.take_log())
-                stub.clear_faults()
-                after = stub.dump(bucket)
-                pending = len(stub.pending_uploads())
-                stub.uploads.clear()
-                f = {"k": k, "mode": mode, "class": hist.res_class(r), "log": log, "after": after, "msg": None,
-                     "failed_kind": ref_log[k]["kind"], "pending_uploads": pending, "stage": stage_of(k)}
-                msgs = []
-                if "ok" in r:
-                    msgs.append("commit reported success although request %d failed" % k)
-                elif "panic" in r:
-                    msgs.append("commit panicked")
-                changed = sorted(x for x in base_bucket if after.get(x) != base_bucket[x])
-                if changed:
-                    msgs.append("keys that existed before the commit are missing/changed: %r" % changed[:4])
-                left = sorted(x for x in after if x not in base_bucket)
-                if left:
-                    msgs.append("keys of the failed version left behind: %r" % left[:4])
-                self.fresh()
-                if self.reads(oid) != base_reads:
-                    msgs.append("earlier versions of the object do not read back as before the failed commit")
-                st = self.staged(oid)
-                if st != base_staged and (isinstance(base_staged, dict) or not isinstance(st, dict)):
-                    msgs.append("the staged version is not kept")      # (an upgrade without staged changes stages its own version)
-                stub.clear_log()
-                # the retry: the same commit; after a failed upgrade the staged version already carries the new
-                # type declaration (a second `upgrade` is refused as IllegalOperation), it is finished by a plain commit
-                r2 = self.r.s.call(retry_cmd(cmd))
-                if "ok" not in r2:
-                    msgs.append("the retried commit fails: %s" % hist.res_class(r2))
-                else:
-                    fin = stub.dump(bucket)
-                    if set(fin) != set(ref_final) or any(ctok(x, fin[x]) != ctok(x, ref_final[x]) for x in fin):
-                        msgs.append("the retried commit does not yield the object of a fault-free commit")
-                f["msg"] = "; ".join(msgs) if msgs else None
+                f = attempt(k, mode, "mut")
+                f.update(failed_kind=ref_log[k]["kind"], stage=stage_of(k))
                 rec["faults"].append(f)
+        # ---- every read of the request program of a version commit failed once per mode (regression test of
+        # /repo commit 862b96a: the reads precede the first write, a failing read leaves the bucket untouched)
+        rec["read_faults"] = []
+        if not is_new:
+            for mode in modes:
+                for n, j, what in program_reads(ref_full, vpre, root_full):
+                    f = attempt(n, mode, "all")
+                    f.update(j=j, what=what)
+                    if f["msg"] is None and any(e["method"] in ("PUT", "POST", "DELETE") for e in f["log"]):
+                        f["msg"] = "a mutating request was sent although a read before the upload failed"
+                    rec["read_faults"].append(f)
         # leave the repository in the committed state: once more from the start, fault-free
         self.restore(base_bucket, stg_copy)
         final = self.r.s.call(cmd)
@@ -301,7 +356,7 @@ def model_terms(rec):
         c = {"ok": 0, "panic": 2}.get(cls, 1)
         return "%d %s %s" % (c, coq_list([coq_req(e) for e in log]), coq_bucket(restrict(after)))
     if rec["is_new"]:
-        def term(fa, log, cls, after):
+        def term(fa, fr, log, cls, after):
             return "check_object_run %s %s %s %s %s %s" % (fa, coq_str(cp), coq_str(rec["root"]), files_term(walk_for(log)), bk, obs(log, cls, after))
     else:
         inv_k, sc_k = root_full + "/inventory.json", root_full + "/" + (rec["sidecar_name"] or "inventory.json.sha512")
@@ -315,11 +370,13 @@ def model_terms(rec):
                 coq_ufile(sc_k.rsplit("/", 1)[-1], len(fin[sc_k]), ctok(sc_k, fin[sc_k])),
                 coq_str(rec["old_sidecar_name"] or sc_k.rsplit("/", 1)[-1]), up)
 
-        def term(fa, log, cls, after):
-            return "check_version_run %s %s %s %s %s" % (fa, coq_str(cp), inp(log), bk, obs(log, cls, after))
-    terms.append(("ref", term("None", rec["ref_corr_log"], "ok", rec["ref_final"])))
+        def term(fa, fr, log, cls, after):
+            return "check_version_run %s %s %s %s %s %s" % (fa, fr, coq_str(cp), inp(log), bk, obs(log, cls, after))
+    terms.append(("ref", term("None", "None", rec["ref_corr_log"], "ok", rec["ref_final"])))
     for f in rec["faults"]:
-        terms.append(("fault", term("(Some %d)" % f["k"], f["log"], f["class"], f["after"])))
+        terms.append(("fault", term("(Some %d)" % f["k"], "None", f["log"], f["class"], f["after"])))
+    for f in rec["read_faults"]:
+        terms.append(("read-fault", term("None", "(Some %d)" % f["j"], f["log"], f["class"], f["after"])))
     return terms
 
 
@@ -429,7 +486,8 @@ def run(ctx):
 
     dist = {"commits_swept": 0, "new_object": 0, "new_version": 0, "upgrade": 0, "fault_runs": 0, "by_failed_kind": {}, "by_mode": {},
             "by_stage": {}, "dangling_multipart_uploads_after_fault": 0, "requests_per_commit": [],
-            "zero_padded_new_objects": 0, "restore_puts_seen": 0, "reads_before_install_seen": 0,
+            "zero_padded_new_objects": 0, "restore_puts_seen": 0, "reads_before_upload_seen": 0,
+            "read_fault_runs": 0, "by_read": {},
             "model_checks": 0, "prefixes": {}}
     for ri, rec in enumerate(recs):
         mv = by_rec.get(ri, [])
@@ -438,7 +496,7 @@ def run(ctx):
         dist["requests_per_commit"].append(rec["n_requests"])
         dist["prefixes"][str(rec["prefix"])] = dist["prefixes"].get(str(rec["prefix"]), 0) + 1
         dist["model_checks"] += len(mv)
-        dist["reads_before_install_seen"] += sum(1 for e in rec["ref_corr_log"] if e["kind"] == "get")
+        dist["reads_before_upload_seen"] += sum(1 for e in rec["ref_corr_log"] if e["kind"] == "get")
         if rec["is_new"] and rec["vstr"].startswith("v0"):
             dist["zero_padded_new_objects"] += 1
         inp = {"cfg": rec["cfg"], "ops": rec["ops"], "prefix": rec["prefix"], "page_size": rec["page_size"], "commit": rec["label"], "object": rec["oid"]}
@@ -476,20 +534,39 @@ def run(ctx):
             elif not agree:
                 common.corr_break(ctx, "Corr.CheckS3 faulted run (model S3.v vs s3.rs)",
                                   {"input": finp, "requests": [(e["kind"], e["key"], e["status"]) for e in f["log"]]})
+        for f in rec["read_faults"]:
+            agree = next(it)[1] == "true"
+            dist["read_fault_runs"] += 1
+            dist["by_read"][f["what"]] = dist["by_read"].get(f["what"], 0) + 1
+            finp = dict(inp, fail_request_of_all=f["k"], mode=f["mode"], failed=f["what"], read_position=f["j"])
+            ctx.count(("read-fault", rec["label"], rec["prefix"], f["k"], f["mode"]), nontrivial=True,
+                      sample={"commit": rec["label"], "failed": f["what"], "mode": f["mode"], "result": f["class"],
+                              "violation": f["msg"], "model_agrees": agree})
+            if f["msg"]:
+                ctx.violation("impl-violation", {"input": finp, "observed": f["msg"],
+                                                 "requests": [(e["kind"], e["key"], e["status"]) for e in f["log"]],
+                                                 "expected": "error reported, no mutating request, bucket as before the commit, staged version kept, retry succeeds"})
+            elif not agree:
+                common.corr_break(ctx, "Corr.CheckS3 run with a failed read (model S3.v vs s3.rs)",
+                                  {"input": finp, "requests": [(e["kind"], e["key"], e["status"]) for e in f["log"]]})
+    for what in ("get-root-inventory", "get-root-sidecar", "list-declarations", "get-declaration"):
+        if not dist["by_read"].get(what):
+            common.corr_break(ctx, "no run failed the read %s (regression input of /repo commit 862b96a)" % what, {"by_read": dist["by_read"]})
     # the generator must have reached the inputs of the two repaired classes
     for stage in ("root-sidecar", "declaration-put", "declaration-delete"):
         if not dist["by_stage"].get(stage):
             common.corr_break(ctx, "no fault run reached stage %s (input of the repaired class root-inventory-rollback)" % stage, {"by_stage": dist["by_stage"]})
     if not dist["zero_padded_new_objects"]:
         common.corr_break(ctx, "no zero-padded new object was committed (input of the repaired class new-object-walk-order)", {})
-    ctx.coverage["traces_validated_against_impl"] = dist["fault_runs"] + dist["commits_swept"]
+    ctx.coverage["traces_validated_against_impl"] = dist["fault_runs"] + dist["read_fault_runs"] + dist["commits_swept"]
     ctx.coverage["distribution"] = dist
-    ctx.assumptions.append("the S3 stand-in vplib/s3stub.py replaces real S3; a failed request (HTTP 500 or connection closed before an answer) has no effect on the bucket; one fault per commit, at a mutating request (PUT, multipart, DELETE): a second failure during the rollback and failing reads are outside the quantifier of the property")
+    ctx.assumptions.append("the S3 stand-in vplib/s3stub.py replaces real S3; a failed request (HTTP 500 or connection closed before an answer) has no effect on the bucket; one fault per commit, at a mutating request (PUT, multipart, DELETE) or at one of the reads of a version commit (GET of what it replaces, declaration listing); a second failure during the rollback is outside the single-failure quantifier of the property")
     ctx.assumptions.append("dangling multipart uploads (a failed CompleteMultipartUpload is not aborted, s3.rs:1155-1166) are counted in the coverage, they are not keys")
     return common.finish_with_proof(ctx, proof,
         rule="every commit / upgrade of the scenario histories (new object, new version, upgrade; small and multipart files; plain and "
              "zero-padded version numbers; bucket root and nested prefix) is run fault-free and then once per mutating request and fault "
-             "mode (HTTP 500, dropped connection); distinct = (commit, prefix, failed request number, mode); all are non-trivial")
+             "mode (HTTP 500, dropped connection), and for version commits once per read of what is replaced and mode; "
+             "distinct = (commit, prefix, failed request number, mode); all are non-trivial")
 
 
 def replay(ctx, body):
@@ -504,4 +581,7 @@ def replay(ctx, body):
         for f in rec["faults"]:
             if f["msg"]:
                 ctx.violation("impl-violation", {"input": dict(inp, fail_request=f["k"], mode=f["mode"]), "observed": f["msg"]})
+        for f in rec["read_faults"]:
+            if f["msg"]:
+                ctx.violation("impl-violation", {"input": dict(inp, fail_request_of_all=f["k"], mode=f["mode"], failed=f["what"]), "observed": f["msg"]})
     return ctx.finish(rule="replay of one recorded scenario")
